@@ -73,15 +73,46 @@ EXPECTED_SCOPE_STEPS = ["_expand_using", "_qualify_columns", "_expand_alias_refs
                         "_expand_group_by", "_expand_order_by_and_distinct_on"]
 
 
+class _DialectName:
+    """stand-in for a `Dialects` enum member (only `.value` is used)"""
+
+    def __init__(self, value):
+        self.value = value
+
+    def __repr__(self):
+        return f"<dialect {self.value!r}>"
+
+
+_ALL_DIALECTS = []
+
+
+def all_dialects():
+    """every dialect name: the `Dialects` enum UNION sqlglot.dialects.DIALECT_MODULE_NAMES (the enum has no entry for
+    dialects that exist only as a lazily imported module, e.g. singlestore)"""
+    if not _ALL_DIALECTS:
+        import sqlglot.dialects as dmod
+        from sqlglot.dialects.dialect import Dialect, Dialects
+
+        names = {d.value for d in Dialects} | set(getattr(dmod, "DIALECT_MODULE_NAMES", ()))
+        for n in sorted(names):
+            try:
+                Dialect.get_or_raise(n or None)
+            except Exception:  # noqa
+                continue
+            _ALL_DIALECTS.append(_DialectName(n))
+    return _ALL_DIALECTS
+
+
 def sg():
     import sqlglot
     from sqlglot import exp
-    from sqlglot.dialects.dialect import Dialect, Dialects
+    from sqlglot.dialects.dialect import Dialect
     from sqlglot.errors import OptimizeError
     from sqlglot.optimizer.qualify import qualify
     from sqlglot.schema import MappingSchema
 
-    return sqlglot, exp, Dialect, Dialects, OptimizeError, qualify, MappingSchema
+    # `Dialects` below is the full list of dialect names (enum ∪ module names), each with a `.value`
+    return sqlglot, exp, Dialect, all_dialects(), OptimizeError, qualify, MappingSchema
 
 
 # ------------------------------------------------------------------------------------------ translate
